@@ -21,6 +21,17 @@ namespace BtcVerif.Model.Script
 open BtcVerif
 open BtcVerif.Spec.Script (Token)
 
+/-! ### vocabulary for statements about raw operations -/
+
+/-- the pair (opcode, data-or-empty) of a raw operation, as GetScriptOp reports it -/
+def RawOp.pair (o : RawOp) : Nat × Bytes := (o.opcode, o.data.getD [])
+
+/-- raw operations are well-formed: the data is present exactly for push opcodes -/
+def RawOp.wf (o : RawOp) : Prop := o.opcode < 256 ∧ (o.data.isSome ↔ o.opcode ≤ 0x4e)
+
+/-- the bytes a raw operation occupies: opcode byte, length field of its push form, payload -/
+def RawOp.enc (o : RawOp) : Bytes := Spec.Script.opEnc o.opcode (o.data.getD [])
+
 /-! ### _bignum.py -/
 
 /-- `int.bit_length()` of a non-negative int (Python's bit_length ignores the sign) -/
